@@ -253,6 +253,24 @@ CLAIMED = {
              'socket_timeout after the probe is outside the statement (model and code both treat it as too late). No axioms.',
         technique='Coq proof: step lemmas and mutual induction over a timed transition system; timed trace correspondence of the real task on a virtual-time loop',
         design='6 (C16)'),
+    'C15': dict(
+        text='Coq theorems (Props/C15.v) over Model/Wire.v: every PDU the library builds carries its own length (from C03), hence for ANY set of tasks '
+             'writing through _send_data and ANY interleaving an independent framer cuts the byte stream back into exactly the PDUs written; for any '
+             'number of tasks sending any PDUs, interleaved in ANY way at their await points (merge relation), every write was announced to the '
+             'sending hook before with exactly those bytes (multiset invariant by induction over the merge); in every run of the connect / bind / '
+             'bound / cycle-end transition system with gated writers the bind request is the first PDU of its connection and every other PDU is '
+             'written on a connection whose bind has succeeded; mode -> bind command and session state per table. The echo of sequence numbers and '
+             'one answer per request are C05_one_answer. Tied to the code by trace validation: concurrent sessions on the real ESME.start() (sender, '
+             'receiver answering, keeper, stop(), suspending hooks, delayed bind responses, reconnects, probes suspended across a reconnect, '
+             'messages queued during teardown) produce a global event log that is checked by wire_ok evaluated in Coq and by an oracle with an '
+             'independent framer (whole PDUs announced beforehand, bind first, response after the received hook, each inbound PDU to the hook once, '
+             'no submit_sm from a receiver, state matches mode).',
+        note='Trusted: Coq kernel, harness (global event log, virtual-time loop), atomicity of coroutine code between awaits, one transport.write per '
+             'StreamWriter.write. The task and gate models are validated against real traces (every real trace satisfies the checked predicate), '
+             'not derived from the source. Proved for the code after fixes 480fe1d, e8e2198 (AssertionError ended start() when stop() raced a '
+             'sender) and d33e5be (a probe whose hook outlived a reconnect was written before the new bind response). No axioms.',
+        technique='Coq proof: multiset invariant over all interleavings (merge relation), transition-system invariant for the bound gate, framing lemma from the command_length theorem; trace validation of real concurrent sessions',
+        design='6 (C15)'),
 }
 
 PENDING_REASON = 'check not built yet in this round (planned, see DESIGN.md section 6); not claimed until its proof and correspondence run exist'
